@@ -29,10 +29,13 @@ def rec_case(draw, level="function"):
     lay = draw(layout(2, 4, 3, 3, nrov_min=1))
     if lay["ntot"] > 9:
         lay = draw(layout(2, 2, 2, 3, nrov_min=1))
-    nx = draw(st.sampled_from([64, 128, 256, 512, 1024, 2048]))
+    nx = draw(st.sampled_from([64, 128, 256, 512, 1024, 2048, 65, 125, 250]))
     if level != "function":
         nx = min(nx, 512)
-    pov = draw(st.sampled_from([0.5, 0.0, 0.25, 0.75]))
+    if nx in (65, 125):  # odd lengths: overlaps whose product with nxseg is an integer in floating point
+        pov = draw(st.sampled_from([0.0, 0.2, 0.6]))
+    else:
+        pov = draw(st.sampled_from([0.5, 0.0, 0.25, 0.75])) if nx != 250 else draw(st.sampled_from([0.5, 0.0, 0.2]))
     nseg = draw(st.integers(4, 8))
     return {"layout": lay, "nxseg": nx, "pov": pov, "method": draw(st.sampled_from(["per", "cor"])), "N": nx * nseg + draw(st.integers(0, nx // 2)),
             "fs": draw(st.sampled_from([1.0, 100.0, 37.5])), "seed": draw(st.integers(0, 2**32 - 1)), "alg": draw(st.sampled_from(["FDD_MS", "EFDD_MS", "pLSCF_MS"])),
@@ -200,7 +203,7 @@ def judge_general(case):
 SUBS = [
     Sub("simultaneous", judge_simultaneous, rec_case(), quick=120, thorough=3000,
         rule="fdd.SD_PreGER on setups cut from one recording equals fdd.SD_est([refs; roving...], refs) with the same nxseg/pov/method, same frequency grid"),
-    Sub("classes", judge_class, rec_case("class"), quick=60, thorough=1500,
+    Sub("classes", judge_class, rec_case("class"), quick=180, thorough=2500,
         rule="FDD_MS / EFDD_MS / pLSCF_MS .result.{freq,Sy} through MultiSetup_PreGER.run_all (reference columns anywhere) equal the single-setup matrix"),
     Sub("general", judge_general, rec_case(), quick=100, thorough=2500,
         rule="independent setups: reference block = mean of per-setup blocks, roving block = G_mov,ref G_ref,ref^-1 mean; scaling one setup by g changes only the mean reference block by (g^2-1)/n G_i"),
